@@ -153,8 +153,10 @@ func (o *MockOracle) IsExpired(lockTimestamp, TTL uint64, _ *oracle.Option) bool
 func (o *MockOracle) UntilExpired(lockTimeStamp, TTL uint64, _ *oracle.Option) int64 {
 	o.RLock()
 	defer o.RUnlock()
-	expire := oracle.GetTimeFromTS(lockTimeStamp).Add(time.Duration(TTL) * time.Millisecond)
-	return expire.Sub(time.Now().Add(o.offset)).Milliseconds()
+	// Use the same millisecond arithmetic as the other oracles, so that the result is positive
+	// exactly as long as IsExpired reports false (truncating the nanosecond difference would
+	// report 0 during the last sub-millisecond before the expiry).
+	return oracle.ExtractPhysical(lockTimeStamp) + int64(TTL) - oracle.GetPhysical(time.Now().Add(o.offset))
 }
 
 // Close implements oracle.Oracle interface.
